@@ -117,6 +117,14 @@ def gen_ops(rng, model, items, route):
       ops.append({"op": "override", "section": s1, "key": k1, "value": new_value(rng, s1, k1, model, v1)})
       ops.append({"op": "add", "section": "Notes", "key": norm(k1), "value": "same key name in another section"})
       touched.update([(s1, norm(k1)), ("Notes", norm(k1))])
+  # removal of every key of a small section (incl. the last one): the section itself then disappears or stays empty
+  small = [(s_, its) for s_, its in items if 1 <= len(its) <= 2 and not s_.startswith("Table-Form") and s_ != "Tabulation"]
+  if small and rng.random() < 0.25:
+    s_, its = rng.choice(small)
+    for k_, v_ in its:
+      if (s_, norm(k_)) not in touched:
+        ops.append({"op": "remove", "section": s_, "key": ws_variant(rng, k_)})
+        touched.add((s_, norm(k_)))
   for _ in range(n):
     c = rng.random()
     if c < 0.45 and flat:
@@ -286,6 +294,10 @@ def run_case(case, ctx):
   ctx.cls("route:" + route)
   ctx.cls("target:" + m["target"])
   ctx.cls("nops:%d" % len(ops))
+  for s_, its in emit.model_items(m):
+    rem = [o for o in ops if o["op"] == "remove" and o["section"] == s_]
+    if its and len(rem) >= len(its):
+      ctx.cls("last_key_of_section_removed")
   for o in ops:
     ctx.cls("op:%s:%s" % (o["op"], o["section"].split(":")[0]))
     if norm(o["key"]) != o["key"]:
